@@ -1,43 +1,73 @@
 ---------------------------- MODULE SchemaDocs ----------------------------
-(* C08 (document level), reused by C09/C10/C11: generated schema documents and instance blocks.  *)
+(* Generated schema documents and instance blocks (C08 document level, C09, C10, C11).           *)
 (* schema   = a non-empty set of fields from FieldPool + an UNKNOWN_FIELDS policy                 *)
-(* instance = for every schema field one of ok | bad | missing | null | dup_ok_last | dup_bad_last *)
-(*            (duplicated key: the documented rule is that the last value is kept), plus an       *)
-(*            optional field the schema does not know.                                            *)
-(* Expected(case) = the set of fields that must be named by an error, the fields that may only be  *)
-(* named by a warning, and the resulting status.                                                  *)
+(* instance = for every schema field one STATE (what is written for it), plus an optional field   *)
+(*            the schema does not know, plus spelling knobs (layout only)                         *)
+(* The module says, per field and state, what text is written (ValueTexts), whether the field     *)
+(* must be named by an error (MustError), what a schema repair may turn it into (RepairOf).       *)
 EXTENDS Naturals, Sequences, FiniteSets, TLC, Json
 
-CONSTANTS MaxFields
-VARIABLE sd        \* [fields |-> set of field names, policy, inst |-> [field -> state], unknown |-> BOOLEAN]
+CONSTANTS MaxFields,
+          StateSet,     \* states the generator may use (subset of AllStates)
+          Spell         \* TRUE: also enumerate the spelling knobs
+VARIABLE sd
 
 FieldPool == {"NAME", "LEVEL", "COUNT"}
-(* chain of each field, an acceptable and an unacceptable value (as OCTAVE text) *)
-(* (written with the ASCII alias & of the constraint operator; the harness copies it into the schema document) *)
+(* chains are written with the ASCII alias & of the constraint operator; the harness copies them into the schema document *)
 ChainOf(f) == CASE f = "NAME" -> "REQ&TYPE[STRING]" [] f = "LEVEL" -> "OPT&ENUM[low,high,higher]" [] OTHER -> "REQ&TYPE[NUMBER]&RANGE[1,10]"
-OkValue(f) == CASE f = "NAME" -> "\"some name\"" [] f = "LEVEL" -> "high" [] OTHER -> "5"
-BadValue(f) == CASE f = "NAME" -> "42" [] f = "LEVEL" -> "hi" [] OTHER -> "11"
 Required(f) == f \in {"NAME", "COUNT"}
-States == {"ok", "bad", "missing", "null", "dup_ok_last", "dup_bad_last"}
+AllStates == {"ok", "ok2", "bad", "missing", "null", "dup_ok_last", "dup_bad_last", "ambig", "casefold", "casefold2",
+              "numstr", "numstr_out", "numbad", "numover", "numfloat", "numbig", "dup_numstr", "dup_casefold"}
+Applicable(f, st) ==
+  CASE st \in {"ambig", "casefold", "casefold2", "dup_casefold"} -> f = "LEVEL"
+    [] st \in {"numstr", "numstr_out", "numbad", "numover", "numfloat", "numbig", "dup_numstr"} -> f = "COUNT"
+    [] OTHER -> TRUE
+(* the OCTAVE text of the value(s) written for a field in a state (two texts = the key is written twice) *)
+Ok(f)  == CASE f = "NAME" -> "\"some name\"" [] f = "LEVEL" -> "high" [] OTHER -> "5"
+Ok2(f) == CASE f = "NAME" -> "\"True\"" [] f = "LEVEL" -> "low" [] OTHER -> "10"
+Bad(f) == CASE f = "NAME" -> "42" [] f = "LEVEL" -> "nope" [] OTHER -> "11"
+ValueTexts(f, st) ==
+  CASE st = "ok" -> <<Ok(f)>> [] st = "ok2" -> <<Ok2(f)>> [] st = "bad" -> <<Bad(f)>> [] st = "missing" -> <<>>
+    [] st = "null" -> <<"null">> [] st = "dup_ok_last" -> <<Bad(f), Ok(f)>> [] st = "dup_bad_last" -> <<Ok(f), Bad(f)>>
+    [] st = "ambig" -> <<"hi">> [] st = "casefold" -> <<"HIGH">> [] st = "casefold2" -> <<"Low">>
+    [] st = "numstr" -> <<"\"7\"">> [] st = "numstr_out" -> <<"\"11\"">> [] st = "numbad" -> <<"\"7x\"">>
+    [] st = "numover" -> <<"\"1e400\"">> [] st = "numbig" -> <<"\"9007199254740993\"">>
+    [] st = "dup_numstr" -> <<"\"7\"", "\"7\"">> [] st = "dup_casefold" -> <<"HIGH", "HIGH">>
+    [] OTHER (* numfloat *) -> <<"\"2.5\"">>
 Policies == {"REJECT", "WARN", "IGNORE", "NONE"}          \* NONE: no POLICY block (documented default: REJECT)
+
+DefSp == [ind |-> 2, asg |-> "::", quote |-> FALSE, blank |-> FALSE, endOmit |-> FALSE]
+Spellings == IF Spell THEN {[ind |-> i, asg |-> a, quote |-> qq, blank |-> b, endOmit |-> e] :
+                              i \in {2, 4}, a \in {"::", " :: "}, qq \in BOOLEAN, b \in BOOLEAN, e \in BOOLEAN}
+             ELSE {DefSp}
 
 Init == \E fs \in (SUBSET FieldPool) \ {{}} : \E pol \in Policies :
           /\ Cardinality(fs) <= MaxFields
-          /\ sd = [fields |-> fs, policy |-> pol, inst |-> [f \in fs |-> "unset"], unknown |-> FALSE, done |-> FALSE]
+          /\ sd = [fields |-> fs, policy |-> pol, inst |-> [f \in fs |-> "unset"], unknown |-> FALSE, sp |-> DefSp, done |-> FALSE]
 Fill == /\ ~sd.done
-        /\ \E st \in [sd.fields -> States] : \E u \in BOOLEAN :
-             sd' = [sd EXCEPT !.inst = st, !.unknown = u, !.done = TRUE]
+        /\ \E st \in [sd.fields -> StateSet] : \E u \in BOOLEAN : \E s \in Spellings :
+             /\ \A f \in sd.fields : Applicable(f, st[f])
+             /\ sd' = [sd EXCEPT !.inst = st, !.unknown = u, !.sp = s, !.done = TRUE]
 Next == Fill
-EmitCase == IF sd.done THEN PrintT(ToJson([fields |-> sd.fields, policy |-> sd.policy, unknown |-> sd.unknown,
+EmitCase == IF sd.done THEN PrintT(ToJson([fields |-> sd.fields, policy |-> sd.policy, unknown |-> sd.unknown, sp |-> sd.sp,
                                            inst |-> [f \in sd.fields |-> sd.inst[f]],
                                            chains |-> [f \in sd.fields |-> ChainOf(f)],
-                                           okv |-> [f \in sd.fields |-> OkValue(f)], badv |-> [f \in sd.fields |-> BadValue(f)]])) ELSE TRUE
+                                           texts |-> [f \in sd.fields |-> ValueTexts(f, sd.inst[f])]])) ELSE TRUE
 
 (* ---------------------------------------------------------------------------------- *)
-(* c = [fields (set), policy, unknown, inst (record field -> state)] *)
-FinalState(st) == CASE st = "dup_ok_last" -> "ok" [] st = "dup_bad_last" -> "bad" [] OTHER -> st
-MustError(c) == {f \in c.fields : LET s == FinalState(c.inst[f]) IN s = "bad" \/ (Required(f) /\ s \in {"missing", "null"})}
+(* c = [fields (set), policy, unknown, inst (field -> state)] *)
+(* the verdict on the last value written for the field, by the semantics of Constraints.tla for these chains *)
+Final(st) == CASE st \in {"ok", "ok2", "dup_ok_last"} -> "ok"
+               [] st \in {"missing"} -> "missing" [] st = "null" -> "null"
+               [] OTHER -> "bad"        \* bad, dup_bad_last, dup_numstr, dup_casefold, ambig, casefold(2) (ENUM is case-sensitive), numeric strings (TYPE[NUMBER])
+MustError(c) == {f \in c.fields : LET s == Final(c.inst[f]) IN s = "bad" \/ (Required(f) /\ s \in {"missing", "null"})}
 UnknownIsError(c) == c.unknown /\ c.policy \in {"REJECT", "NONE"}
 UnknownIsWarning(c) == c.unknown /\ c.policy = "WARN"
 ExpectedStatus(c) == IF MustError(c) # {} \/ UnknownIsError(c) THEN "INVALID" ELSE "VALIDATED"
+
+(* what a schema repair (fix on) may turn the value of a field into: "same" = it must stay as written *)
+RepairOf(st) == CASE st \in {"casefold", "dup_casefold"} -> "high" [] st = "casefold2" -> "low"
+                  [] st \in {"numstr", "dup_numstr"} -> "7" [] st = "numstr_out" -> "11" [] st = "numfloat" -> "2.5"
+                  [] st = "numbig" -> "9007199254740993"
+                  [] OTHER -> "same"           \* incl. numbad ("7x"), numover ("1e400": not finite), ambig, bad, null, missing
 =============================================================================
